@@ -243,6 +243,7 @@ struct Run {
     bool finishing = false;         // driver finished; draining leftover threads
     bool killed = false;            // run over: parked threads must exit
     bool horizon_hit = false;
+    long regex_live = 0;            // regcomp() successes minus regfree() calls made by the library
     long fail_create_at = -1;       // fault: the k-th pthread_create issued by the library from now fails (EAGAIN)
     std::map<const void *, MutexState> mutexes;
     std::map<const void *, CondState> conds;
